@@ -119,9 +119,15 @@ def source_grep():
     return hits
 
 
-def run_lines(cmd, lines, shards=1, timeout=3600, env=None):
+CRASH_BUDGET = 12      # crashes / hangs per shard after which the rest of the shard is not run (each crash is a violation already)
+
+
+def run_lines(cmd, lines, shards=1, timeout=3600, env=None, _crashes=None):
     """Pipe op lines to a line-protocol process, return output lines (same length).
-    Sharded over processes for speed. A crashed/hung shard is re-run op by op."""
+    Sharded over processes for speed. A crashed/hung shard is continued after the culprit in a fresh process; after CRASH_BUDGET
+    crashes in one shard the remaining ops of that shard are answered `skipped-after-crashes` (not compared): a change that makes the
+    implementation die on every other input (e.g. unbounded recursion: a Go stack overflow takes seconds and cannot be recovered) must
+    not turn a quick check into an hour."""
     if not lines:
         return []
     shards = max(1, min(shards, len(lines) // 200 or 1))
@@ -164,7 +170,12 @@ def run_lines(cmd, lines, shards=1, timeout=3600, env=None):
         if k < hi - lo:
             out.append("crash" if rc != 3 else "hang")
             rest = lines[lo + k + 1:hi]
-            out.extend(run_lines(cmd, rest, 1, timeout, env))
+            cnt = _crashes if (_crashes is not None and shards == 1) else [0]
+            cnt[0] += 1
+            if cnt[0] >= CRASH_BUDGET:
+                out.extend(["skipped-after-crashes"] * len(rest))
+            else:
+                out.extend(run_lines(cmd, rest, 1, timeout, env, cnt))
     assert len(out) == n, (len(out), n)
     return out
 
@@ -243,7 +254,7 @@ def compare(res, findings, lines, impl, model, search=None):
         if not ln or ln.startswith("#"):
             continue
         op = ln.split()[0].lstrip("!")
-        if b in ("nolex", "skip"):
+        if b in ("nolex", "skip") or a == "skipped-after-crashes":
             stats["skipped"] += 1
             continue
         if b == "unknown-op" or a == "unknown-op":
